@@ -16,9 +16,9 @@ package crunchrun
 // to the mount; anything not inside a known mount is an error, never dropped.
 // (the API client call in getManifest and the file reads do not touch the
 // copier's mount tables)
-//@ func copier.getManifest property C17
+//@ func copier.getManifest trustedframe property C17
 //@   modifies copier.manifestCache map[string]*manifest.Manifest
-//@ func copier.hostRoot property C17
+//@ func copier.hostRoot trustedframe property C17
 //@   modifies nothing
 //@ extern os.Open
 //@   modifies nothing
